@@ -24,14 +24,15 @@ COMBOS = [("serial", "sync"), ("tcp", "sync"), ("serial", "async"), ("tcp", "asy
 ENV = {"Start", "ReadError", "WriteError", "PeerClose", "Answer", "Tick"}
 
 
-def behaviours(wd, dev, fl, num, depth, seed):
-    cfg = os.path.join(wd, f"gen_{dev}_{fl}.cfg")
+def behaviours(wd, dev, fl, num, depth, seed, focus="all"):
+    cfg = os.path.join(wd, f"gen_{dev}_{fl}_{focus}.cfg")
     with open(cfg, "w", encoding="utf-8") as fh:
-        fh.write(f'SPECIFICATION GSpec\nCONSTANTS Dev = "{dev}"\n Fl = "{fl}"\n R = 10\n MaxConn = 8\n MaxTime = 400\nCHECK_DEADLOCK FALSE\n')
-    simdir = os.path.join(wd, f"sim_{dev}_{fl}")
+        fh.write(f'SPECIFICATION GSpec\nCONSTANTS Dev = "{dev}"\n Fl = "{fl}"\n R = 160\n Slack = 2\n Focus = "{focus}"\n MaxConn = 8\n'
+                 ' MaxTime = 100000\nCHECK_DEADLOCK FALSE\n')
+    simdir = os.path.join(wd, f"sim_{dev}_{fl}_{focus}")
     shutil.rmtree(simdir, ignore_errors=True)
     os.makedirs(simdir)
-    r = tlc.run("LinkGen", cfg, workdir=os.path.join(wd, f"genrun_{dev}_{fl}"), workers=1, timeout=300, depth=depth, seed=seed,
+    r = tlc.run("LinkGen", cfg, workdir=os.path.join(wd, f"genrun_{dev}_{fl}_{focus}"), workers=1, timeout=300, depth=depth, seed=seed,
                 simulate=f"file={simdir}/b,num={num}")
     if r.error and "TLC exit code" not in (r.error or ""):
         raise tlc.MachineryError(f"LinkGen simulate: {r.error}\n{r.out[-1500:]}")
@@ -72,8 +73,16 @@ def play(args):
             j = i + 1
             while j < len(acts) and acts[j]["a"] in ("Attempt", "Watchdog"):
                 j += 1
+            # a connection that breaks before the system is quiet again: "connect ok" directly followed by a read error
+            # is played as ONE step (the device is created with the error already pending)
+            while (j < len(acts) and acts[j]["a"] == "ReadError" and acts[j - 1]["a"] == "Attempt" and acts[j - 1]["ok"]
+                   and idx % 2 == 0):
+                acts[j - 1] = dict(acts[j - 1], okerr=True)
+                j += 1
+                while j < len(acts) and acts[j]["a"] in ("Attempt", "Watchdog"):
+                    j += 1
             group = acts[i:j]
-            plan = [g["ok"] for g in group if g["a"] == "Attempt"]
+            plan = [("okerr" if g.get("okerr") else g["ok"]) for g in group if g["a"] == "Attempt"]
             name = a["a"]
             if name in ("ReadError", "WriteError", "PeerClose", "Answer") and not L.live():
                 break          # the real system has no live connection here: it diverged earlier (already recorded)
@@ -122,7 +131,7 @@ def validate(traces, wd):
 
     def cfgfile(path, dev, fl, diag):
         with open(path, "w", encoding="utf-8") as fh:
-            fh.write(f'SPECIFICATION TSpec\nCONSTANTS Dev = "{dev}"\n Fl = "{fl}"\n R = 10\n MaxConn = 12\n MaxTime = 100000\n'
+            fh.write(f'SPECIFICATION TSpec\nCONSTANTS Dev = "{dev}"\n Fl = "{fl}"\n R = 160\n Slack = 2\n MaxConn = 12\n MaxTime = 1000000\n'
                      f' Diag = {"TRUE" if diag else "FALSE"}\nCONSTRAINT Track\nPOSTCONDITION Post\nCHECK_DEADLOCK FALSE\n'
                      'INVARIANT MadeOncePerConnection\nINVARIANT LostOncePerLostConnection\nINVARIANT AtMostOneLiveLink\nINVARIANT QuietAfterStop\n')
 
@@ -172,7 +181,7 @@ def run(tier):
     for dev, fl in COMBOS:
         cfg = os.path.join(wd, f"mc_{dev}_{fl}.cfg")
         with open(cfg, "w", encoding="utf-8") as fh:
-            fh.write(f'SPECIFICATION Spec\nCONSTANTS Dev = "{dev}"\n Fl = "{fl}"\n R = 3\n MaxConn = {2 if tier == "quick" else 3}\n'
+            fh.write(f'SPECIFICATION Spec\nCONSTANTS Dev = "{dev}"\n Fl = "{fl}"\n R = 3\n Slack = 1\n MaxConn = {2 if tier == "quick" else 3}\n'
                      f' MaxTime = {11 if tier == "quick" else 16}\n'
                      "INVARIANT MadeOncePerConnection\nINVARIANT LostOncePerLostConnection\nINVARIANT AtMostOneLiveLink\n"
                      "INVARIANT ReconnectAfterLoss\nINVARIANT RetryEveryR\nINVARIANT QuietAfterStop\nINVARIANT SilentDroppedInTime\n"
@@ -187,8 +196,17 @@ def run(tier):
     num = 25 if tier == "quick" else 400
     for dev, fl in COMBOS:
         beh = behaviours(wd, dev, fl, num, 16 if tier == "quick" else 22, common.seed() + 20)
+        if dev == "tcp":
+            beh += behaviours(wd, dev, fl, num, 26 if tier == "quick" else 40, common.seed() + 21, focus="watchdog")
+        # a few scripted sequences around "the connection breaks right after it was made" (validated like the others)
+        A = lambda a, d=0, ok=False: {"a": a, "d": d, "ok": ok}
+        beh += [[A("Start"), A("Attempt", 0, True), A("ReadError"), A("Attempt", 0, True), A("Tick", 3), A("ReadError"),
+                 A("Attempt", 0, False), A("Tick", 160), A("Attempt", 0, True), A("ReadError"), A("Attempt", 0, True), A("Tick", 1),
+                 A("Stop"), A("Tick", 161), A("Tick", 1)],
+                [A("Start"), A("Attempt", 0, False), A("Tick", 161), A("Attempt", 0, True), A("ReadError"), A("Attempt", 0, True),
+                 A("ReadError"), A("Attempt", 0, True), A("Tick", 2), A("Stop"), A("Tick", 1), A("Tick", 1)]]
         for i, acts in enumerate(beh):
-            jobs.append((dev, fl, acts, i))
+            jobs.append((dev, fl, acts, 2 * i if i >= len(beh) - 2 else i))
     rep.cov["behaviours_generated_by_tlc"] = len(jobs)
     with mp.get_context("fork").Pool(min(8, common.ncpu())) as pool:
         traces = pool.map(play, jobs, chunksize=2)
